@@ -62,8 +62,8 @@ def python_crosscheck(chk):
         hk = key.hex() or "-"
         ht = text.hex() or "-"
         ops.append("hmacrfc %s %s" % (hk, ht)); exp.append(hmac.new(key, text, hashlib.sha1).hexdigest())
-        # the code's HMAC = RFC 2104 under the key cut to 64 bytes (theorem hmac_code_is_rfc_of_truncated_key)
-        ops.append("hmac %s %s" % (hk, ht)); exp.append(hmac.new(key[:64], text, hashlib.sha1).hexdigest())
+        # the model of the code's HMAC = RFC 2104 for every key (theorem hmac_code_eq_rfc)
+        ops.append("hmac %s %s" % (hk, ht)); exp.append(hmac.new(key, text, hashlib.sha1).hexdigest())
         ops.append("crcspec %s" % ht); exp.append(str(zlib.crc32(text)))
         ops.append("crc %s" % ht); exp.append(str(zlib.crc32(text)))
     rc, got, err = vlib.run_driver("qxdriver_c14", ops)
